@@ -45,12 +45,20 @@ def run_check(prop, tier, seed):
                                    'secs': round(r['secs'], 1), 'what': mc.get('what', '')})
             cov['tlc_cmds'].append(r['cmd'])
 
+        # ---- pre steps (e.g. TLC generates programs / vectors that a driver replays)
+        ctx = dict(harness=harness, scratch=scratch, tier=tier, seed=seed, prop=prop, env={})
+        for pre in plan.get('pre', []):
+            part = pre(ctx)
+            cov['states'] += part.get('states', 0)
+            cov['transitions'] += part.get('transitions', 0)
+            cov['mbt'].append(part.get('info', {}))
+
         # ---- TV: traces from the real code, validated by TLC
         tdir = os.path.join(scratch, 'traces')
         for drv in plan.get('drivers', []):
             t = drv.get('tiers', {}).get(tier, {})
             h = harness_race if drv.get('race') else harness
-            denv = None
+            denv = dict(os.environ, **ctx['env']) if ctx['env'] else None
             if drv.get('race'):
                 # the race detector reports into files; a report is real-code evidence (see the race leg)
                 denv = dict(os.environ, GORACE='log_path=%s halt_on_error=0 exitcode=0' % os.path.join(scratch, 'race-report'))
@@ -133,15 +141,18 @@ def run_check(prop, tier, seed):
         # failures share their code with listed ones; that only matters when every listed failure of
         # a claimed code was explained by a known finding (the unlisted ones might not be).
         if overflow and not violations:
-            known_codes = set(c for (_, c, _) in known_hits)
+            # a finding identified by its own demand code alone (empty match) classifies unlisted
+            # failures of that code as well; only input-specific matches are affected by the cap
+            known_codes = set(c for (k, c, _) in known_hits if k.get('match'))
             if known_codes:
                 raise vf.HarnessError('%d failed demands beyond the per-code cap could not be matched against known findings (%s)'
                                       % (overflow, ', '.join(sorted(known_codes))))
 
-        for (k, code, note) in known_hits[:20]:
-            vf.log('KNOWN-FINDING: property=%s %s [%s at %s]' % (prop, k['what'], code, note))
-        if len(known_hits) > 20:
-            vf.log('KNOWN-FINDING: property=%s ... %d more events matching listed findings' % (prop, len(known_hits) - 20))
+        byfinding = {}
+        for (k, code, note) in known_hits:
+            byfinding.setdefault(k.get('id', k['what']), [k, code, note, 0])[3] += 1
+        for (k, code, note, n) in byfinding.values():
+            vf.log('KNOWN-FINDING: property=%s %s [demand %s, %d events of this run, first at %s]' % (prop, k['what'], code, n, note))
         seen = set()
         for (code, note) in others:
             if code not in seen:
